@@ -15,7 +15,16 @@ with tempfile.TemporaryDirectory() as td:
     e2 = dict(env)
     if repo != "/repo":
         e2["PYTHONPATH"] = os.path.join(repo, "src")
-    p = subprocess.run(cmd, cwd=repo, env=e2, stdout=subprocess.PIPE, stderr=subprocess.STDOUT, text=True)
+    p = None
+    for attempt in range(3):   # the suite occasionally hangs in a hypothesis test on the unchanged tree as well
+        try:
+            p = subprocess.run(cmd, cwd=repo, env=e2, stdout=subprocess.PIPE, stderr=subprocess.STDOUT, text=True, timeout=400)
+            break
+        except subprocess.TimeoutExpired:
+            subprocess.run(["pkill", "-f", "junitxml=" + junit])
+    if p is None:
+        print("suite timed out three times")
+        sys.exit(2)
     tail = p.stdout.strip().splitlines()[-3:]
     passed = set()
     for tc in ET.parse(junit).getroot().iter("testcase"):
